@@ -1,3 +1,401 @@
-//! C19 — not built yet.
+//! C19 — type checking is sound: `type_check` accepts ⇒ `transform` does not fail with a type-class error.
+//!
+//! (1) property check on the implementation: grammar-generated programs and hand-written templates
+//!     (all builtin functions, nested scopes, destructuring) with a deliberately ill-typed expression
+//!     substituted at every operand / index / bound / argument position; violation = accepted by
+//!     `create_type_checker` ∧ `transform` fails with a type-class `TransformError` variant;
+//! (2) correspondence with the Lean model `Rooc/Pre/Types.lean`: the static operator tables over ALL kind
+//!     pairs, the builtin signatures over all kind tuples, and `type_check / get_type / as_primitive` of
+//!     random operator expressions over boundary values.
 use crate::case::Case;
-pub fn generate(_seed: u64, _n: usize, _thorough: bool, _corpus: Option<&str>) -> Vec<Case> { vec![] }
+use crate::pre_gen::*;
+use crate::pre_reflect::{self, kind_sx, prim_sx};
+use crate::rng::Rng;
+use crate::sx;
+use indexmap::IndexMap;
+use rooc::model_transformer::{TransformError, TransformerContext};
+use rooc::type_checker::type_checker_context::{FunctionContext, TypeCheckable, TypeCheckerContext, WithType};
+use rooc::{BinOp, InputSpan, PreExp, Primitive, PrimitiveKind, RoocFunction, RoocParser, Spanned, UnOp};
+use std::panic::{catch_unwind, AssertUnwindSafe};
+
+pub const TYPE_CLASS: [&str; 10] = ["WrongArgument", "WrongExpectedArgument", "BinOpError", "UnOpError", "Unspreadable", "SpreadError",
+    "NonExistentFunction", "WrongNumberOfArguments", "WrongFunctionSignature", "UndeclaredVariable"];
+
+fn base(e: &TransformError) -> &TransformError { e.base_error() }
+fn variant(e: &TransformError) -> String {
+    let d = format!("{:?}", base(e));
+    d.split(|c: char| !c.is_alphanumeric()).next().unwrap_or("").to_string()
+}
+/// a `BinOpError` / `UnOpError` whose operand kinds DO support the operator is a data-dependent failure
+/// (division by zero, overflow) reported under the wrong variant
+fn operator_applicable(e: &TransformError) -> Option<bool> {
+    match base(e) {
+        TransformError::BinOpError { operator, lhs, rhs } => Some(lhs.can_apply_binary_op(*operator, rhs.clone())),
+        TransformError::UnOpError { operator, exp } => Some(exp.can_apply_unary_op(*operator)),
+        _ => None,
+    }
+}
+
+pub struct Verdict { pub tc: String, pub tr: String, pub applicable: Option<bool>, pub detail: String, pub numeric_conversion: bool }
+/// `WrongArgument { expected: Integer | PositiveInteger, got: <numeric> }` is the failure of `as_integer_cast` /
+/// `as_usize_cast` on a fractional or negative NUMBER: it depends on the value, not on the type
+fn numeric_conversion(e: &TransformError) -> bool {
+    match base(e) {
+        TransformError::WrongArgument { got, expected } => matches!(expected, PrimitiveKind::Integer | PrimitiveKind::PositiveInteger) && got.is_numeric(),
+        _ => false,
+    }
+}
+
+pub fn run_program(src: &str) -> Verdict {
+    let r = catch_unwind(AssertUnwindSafe(|| {
+        let p = RoocParser::new(src.to_string());
+        let pre = match p.parse() { Ok(x) => x, Err(e) => return Verdict { tc: "parse-error".into(), tr: "parse-error".into(), applicable: None, detail: e.to_string_from_source(src), numeric_conversion: false } };
+        let tc = match pre.create_type_checker(&vec![], &IndexMap::new()) { Ok(()) => "ok".to_string(), Err(e) => format!("err:{}", variant(&e)) };
+        match pre.transform(vec![], &IndexMap::new()) {
+            Ok(_) => Verdict { tc, tr: "ok".into(), applicable: None, detail: String::new(), numeric_conversion: false },
+            Err(e) => Verdict { tc, tr: format!("err:{}", variant(&e)), applicable: operator_applicable(&e), numeric_conversion: numeric_conversion(&e), detail: e.trace_from_source(src).unwrap_or_else(|_| e.traced_error()) },
+        }
+    }));
+    r.unwrap_or_else(|p| Verdict { tc: "panic".into(), tr: "panic".into(), applicable: None, detail: crate::pre_worker::panic_text(&p), numeric_conversion: false })
+}
+
+fn pos_class(pos: &str) -> String {
+    let last = pos.rsplit('/').next().unwrap_or(pos);
+    let outer = pos.split('/').next().unwrap_or(pos);
+    let c = if last.starts_with("operand:") { let op = &last[8..]; if ["and", "or", "xor", "implies", "iff", "not"].contains(&op) { "logic-operand" } else { "arith-operand" } }
+        else if last.starts_with("arg:") { last } else if last.starts_with("block:") { "block-member" } else if last.starts_with("scoped:") { "scoped" } else { last };
+    // compile-time contexts (evaluated by as_primitive) vs model-expression contexts (into_exp)
+    let ctx = if outer == "const" || outer == "decl-bound" || outer == "decl-var" || outer == "decl-for" || outer == "constraint-for" || outer == "constraint-name" { "static" }
+        else if pos.contains("/index") || pos.contains("/access") || pos.contains("/iterator") || pos.contains("/arg:") || pos.contains("/range-") { "static" } else { "model" };
+    format!("{}@{}", c, ctx)
+}
+
+/// signature = error variant + the construct, grouped by root cause
+fn root_cause(variant: &str, pert: &str, pos: &str) -> String {
+    let pc = pos_class(pos);
+    let stat = pc.ends_with("@static");
+    if pert == "mixed-array" { return format!("{}:any-typed-value", variant); }
+    if ["setfn-scalar", "setfn-string", "setfn-mixed"].contains(&pert) { return format!("{}:set-function-of-non-iterable", variant); }
+    if ["block-as-value", "scoped-as-value", "avg-as-value", "abs-as-value", "logic-block-as-value"].contains(&pert) && stat { return format!("{}:aggregate-in-compile-time-position", variant); }
+    if ["domain-var", "compound-domain-var"].contains(&pert) && stat { return format!("{}:domain-variable-in-compile-time-position", variant); }
+    if pos.starts_with("objective") && !pos.contains('/') { return format!("{}:non-numeric-objective", variant); }
+    format!("{}:{}@{}", variant, pert, pc)
+}
+
+pub fn judge(src: &str, tags: Vec<String>, pert: &str, pos: &str) -> Case {
+    let v = run_program(src);
+    let mut c = Case::default();
+    c.tags = tags;
+    c.show = src.to_string();
+    c.imp = format!("(tc {} transform {})", v.tc, v.tr);
+    let trv = v.tr.strip_prefix("err:").unwrap_or("");
+    let class = if v.tr == "ok" { "none" } else if v.numeric_conversion { "data" } else if TYPE_CLASS.contains(&trv) { "type-class" } else { "data" };
+    c.tags.push(format!("typecheck:{}", if v.tc == "ok" { "accepts" } else if v.tc.starts_with("err") { "rejects" } else { &v.tc }));
+    c.tags.push(format!("transform:{}", if v.tr == "ok" { "ok".to_string() } else { format!("{}:{}", class, trv) }));
+    c.tags.push(format!("perturbation:{}", pert));
+    c.tags.push(format!("position:{}", pos_class(pos)));
+    c.oracle = format!("sound {} {} {}", v.tc.replace("err:", "err-"), if v.tr == "ok" { "ok".to_string() } else if trv.is_empty() { v.tr.clone() } else { trv.to_string() },
+        if v.numeric_conversion { "numeric-conversion" } else { match v.applicable { Some(true) => "applicable", Some(false) => "inapplicable", None => "na" } });
+    c.nontrivial = v.tc == "ok" || v.tr != "ok";
+    if v.tc == "ok" && class == "type-class" {
+        if v.applicable == Some(true) {
+            c.sig = Some(format!("{}:operator-applicable", trv));
+            c.impl_violation = Some(format!("accepted program fails with {} although the operand kinds support the operator (a data-dependent failure reported as a type error): {}", trv, v.detail));
+        } else {
+            c.sig = Some(root_cause(trv, pert, pos));
+            c.impl_violation = Some(format!("type checker accepts, transform fails with {} (perturbation {} at {}): {}", trv, pert, pos, v.detail));
+        }
+    }
+    if v.tc == "panic" { c.tags.push("panic".into()); }
+    c
+}
+
+// ------------------------------------------------------------------------------------ perturbations
+/// (class, text, needs the iteration variables pt / pn / pe in scope)
+pub fn pool() -> Vec<(&'static str, &'static str, bool)> {
+    vec![
+        ("string", "\"s\"", false), ("boolean", "true", false), ("array", "[1, 2]", false), ("matrix", "[[1], [2, 3]]", false),
+        ("graph", "Graph { A -> [B], B }", false), ("empty-array", "[]", false), ("mixed-array", "[1, \"a\"]", false), ("float", "2.5", false), ("neg-int", "(-3)", false),
+        ("const-string", "pS", false), ("const-bool", "pB", false), ("const-array", "pArr", false), ("const-matrix", "pMat", false), ("const-graph", "pG", false),
+        ("const-float", "pF", false), ("const-strings", "pSs", false),
+        ("tuple-var", "pt", true), ("node-var", "pn", true), ("edge-var", "pe", true),
+        ("call-len", "len(pArr)", false), ("call-enumerate", "enumerate(pArr)", false), ("call-nodes", "nodes(pG)", false), ("call-edges", "edges(pG)", false),
+        ("call-zip", "zip(pArr, pSs)", false), ("call-range", "range(0, 2, true)", false),
+        ("setfn-scalar", "union(3, 3)", false), ("setfn-string", "difference(pS, pS)", false), ("setfn-mixed", "intersection(pArr, pSs)", false), ("setfn-ok", "union(pArr, pArr)", false),
+        ("call-unknown", "foo(1)", false), ("call-arity0", "len()", false), ("call-arity2", "len(pArr, pArr)", false), ("zip-empty", "zip()", false),
+        ("range-arity", "range(1, 2)", false), ("enumerate-arity", "enumerate()", false), ("nodes-arity", "nodes()", false), ("nof-arity", "N_of(\"A\")", false),
+        ("nof-swapped", "N_of(pG, \"A\")", false), ("neigh-string", "neigh_edges(\"A\")", false), ("nodes-array", "nodes(pArr)", false),
+        ("block-as-value", "max{ 1, 2 }", false), ("scoped-as-value", "sum(q9 in 0..2) { q9 }", false), ("avg-as-value", "avg{ 1, 2 }", false), ("abs-as-value", "abs{ 1 }", false),
+        ("logic-block-as-value", "all{ true, pB }", false),
+        ("domain-var", "z", false), ("compound-domain-var", "pw_1", false), ("undeclared", "nope", false), ("undeclared-compound", "nope_1", false),
+        ("access", "pArr[0]", false), ("access-string-index", "pArr[pS]", false), ("access-row", "pMat[0]", false), ("access-too-deep", "pArr[0][0]", false), ("access-scalar", "pF[0]", false),
+        ("access-bool-index", "pArr[pB]", false), ("access-float-index", "pArr[pF]", false),
+        ("string-plus-int", "pS + 1", false), ("int-plus-string", "1 + pS", false), ("bool-plus-int", "pB + 1", false), ("bool-and-int", "(pB and 1)", false), ("not-int", "!1", false),
+        ("neg-string", "-pS", false), ("array-plus-int", "pArr + 1", false), ("string-concat", "pS + pS", false), ("div-zero", "1 / 0", false), ("bool-times-bool", "pB * pB", false),
+        ("overflow", "9223372036854775807 + 1", false), ("not-bool", "!pB", false), ("neg-bool", "-pB", false), ("tuple-plus", "pt + 1", true), ("node-plus", "pn + 1", true),
+        ("infinity", "Infinity", false), ("underscore", "_", false),
+    ]
+}
+
+const EXTRA_CONSTS: [(&str, &str); 8] = [("pS", "\"s\""), ("pB", "true"), ("pArr", "[4, 5, 6]"), ("pMat", "[[1, 2], [3]]"), ("pG", "Graph { A -> [B: 2, C], B -> [C], C }"),
+    ("pF", "1.5"), ("pSs", "[\"a\", \"b\"]"), ("pN", "3")];
+
+/// hand-written templates: every builtin in every argument position, nested scopes, destructuring.
+/// `@` marks nothing — positions are found by the generic walker over the parsed template AST below.
+fn templates() -> Vec<(&'static str, Prog)> {
+    let scope = vec![itn(&["pt0", "pi0"], call("enumerate", vec![id("pArr")])), it1("pt", call("enumerate", vec![id("pArr")])), it1("pn", call("nodes", vec![id("pG")])), it1("pe", call("edges", vec![id("pG")]))];
+    let consts: Vec<(String, E)> = EXTRA_CONSTS.iter().map(|(n, t)| (n.to_string(), E::Raw(t.to_string()))).collect();
+    let decls = vec![
+        Decl { vars: vec![VarName::Simple("z".into())], ty: DomT::Real(Some((int(0), id("pN")))), iters: vec![] },
+        Decl { vars: vec![VarName::Simple("bz".into())], ty: DomT::Boolean, iters: vec![] },
+        Decl { vars: vec![VarName::Cv("pw".into(), vec![Ix::Id("d".into())])], ty: DomT::IntegerRange(int(0), bin(Op::Add, id("pN"), int(2))), iters: vec![it1("d", range(int(0), int(9), true))] },
+        Decl { vars: vec![VarName::Cv("pb".into(), vec![Ix::Id("d".into())])], ty: DomT::Boolean, iters: vec![it1("d", range(int(0), int(9), true))] },
+        Decl { vars: vec![VarName::Cv("pu".into(), vec![Ix::Id("d".into()), Ix::Id("e".into())])], ty: DomT::NonNegativeReal(None), iters: vec![it1("d", call("nodes", vec![id("pG")])), it1("e", range(int(0), int(3), false))] },
+    ];
+    let mk = |name: &'static str, lhs: E, rel: Option<(&str, E)>, extra: Vec<It>| -> (&'static str, Prog) {
+        let mut iters = scope.clone(); iters.extend(extra);
+        (name, Prog { sense: "min".into(), obj: bin(Op::Add, id("z"), int(1)),
+            cons: vec![Cons { name: None, lhs: id("z"), rel: Some((">=".into(), int(0))), iters: vec![] },
+                       Cons { name: Some(VarName::Cv("cn".into(), vec![Ix::Id("pi0".into())])), lhs, rel: rel.map(|(r, e)| (r.to_string(), e)), iters }],
+            consts: consts.clone(), decls: decls.clone() })
+    };
+    let pw = |e: E| cv("pw", vec![Ix::Ex(e)]);
+    vec![
+        mk("arith", bin(Op::Add, bin(Op::Mul, E::Acc("pArr".into(), vec![id("pi0")]), pw(id("pi0"))), bin(Op::Sub, bin(Op::Div, id("z"), int(2)), E::Un(UOp::Neg, Box::new(pw(bin(Op::Add, id("pi0"), int(1))))))), Some(("<=", bin(Op::Mul, id("pN"), id("pF")))), vec![]),
+        mk("logic", bin(Op::Or, bin(Op::And, cv("pb", vec![Ix::Id("pi0".into())]), E::Un(UOp::Not, Box::new(id("bz")))), bin(Op::Implies, id("bz"), bin(Op::Iff, cv("pb", vec![Ix::Lit(1)]), bin(Op::Xor, id("bz"), id("pB"))))), None, vec![]),
+        mk("len-enumerate", bin(Op::Mul, call("len", vec![id("pArr")]), id("z")), Some(("<=", E::Scp("sum".into(), vec![itn(&["a", "b"], call("enumerate", vec![id("pArr")]))], Box::new(bin(Op::Mul, id("a"), pw(id("b"))))))), vec![]),
+        mk("zip", E::Scp("sum".into(), vec![itn(&["a", "b"], call("zip", vec![id("pArr"), E::Acc("pMat".into(), vec![int(0)])]))], Box::new(bin(Op::Mul, id("a"), pw(id("b"))))), Some(("<=", int(3))), vec![]),
+        mk("range", E::Scp("sum".into(), vec![it1("a", range(int(0), call("len", vec![id("pArr")]), false)), it1("b", range(id("a"), bin(Op::Add, id("pN"), int(1)), true))], Box::new(bin(Op::Mul, id("b"), pw(id("a"))))), Some(("<=", int(3))), vec![]),
+        mk("range-call", E::Scp("prod".into(), vec![it1("a", call("range", vec![int(1), id("pN"), E::Lit(V::Bool(true))]))], Box::new(id("a"))), Some(("<=", bin(Op::Mul, int(9), id("z")))), vec![]),
+        mk("setfns", E::Scp("sum".into(), vec![it1("a", call("union", vec![id("pArr"), E::Acc("pMat".into(), vec![int(0)])])), it1("b", call("difference", vec![id("pArr"), id("pArr")])), it1("c", call("intersection", vec![id("pArr"), id("pArr")]))], Box::new(pw(id("a")))), Some(("<=", int(3))), vec![]),
+        mk("graph-fns", E::Scp("sum".into(), vec![it1("a", call("nodes", vec![id("pG")])), itn(&["u", "v", "w"], call("neigh_edges", vec![id("a")])), itn(&["u2", "v2"], call("neigh_edges_of", vec![id("u"), id("pG")])), itn(&["u3", "v3"], call("edges", vec![id("pG")]))],
+            Box::new(bin(Op::Mul, id("w"), cv("pu", vec![Ix::Id("a".into()), Ix::Lit(0)])))), Some(("<=", int(3))), vec![]),
+        mk("graph-short", E::Scp("sum".into(), vec![it1("a", call("V", vec![id("pG")])), itn(&["_", "v"], call("N", vec![id("a")])), itn(&["v2"], call("N_of", vec![id("v"), id("pG")])), it1("ed", call("E", vec![id("pG")]))],
+            Box::new(cv("pu", vec![Ix::Id("a".into()), Ix::Lit(1)]))), Some(("<=", int(3))), vec![]),
+        mk("blocks", bin(Op::Add, E::Blk("min".into(), vec![pw(int(0)), pw(int(1)), id("pN")]), bin(Op::Add, E::Blk("max".into(), vec![id("z"), int(2)]), bin(Op::Add, E::Blk("avg".into(), vec![id("z"), pw(int(2))]), E::Blk("abs".into(), vec![bin(Op::Sub, id("z"), int(1))])))), Some(("<=", int(9))), vec![]),
+        mk("logic-blocks", bin(Op::And, E::Blk("all".into(), vec![id("bz"), cv("pb", vec![Ix::Lit(0)])]), bin(Op::Or, E::Blk("any".into(), vec![id("bz"), id("pB")]), E::Blk("xor".into(), vec![id("bz"), cv("pb", vec![Ix::Lit(2)])]))), None, vec![]),
+        mk("scoped-kinds", bin(Op::Add, E::Scp("prod".into(), vec![it1("a", id("pArr"))], Box::new(id("a"))), bin(Op::Add, E::Scp("min".into(), vec![it1("a", id("pArr"))], Box::new(bin(Op::Mul, id("a"), id("z")))),
+            bin(Op::Add, E::Scp("max".into(), vec![it1("a", E::Acc("pMat".into(), vec![int(1)]))], Box::new(pw(id("a")))), E::Scp("avg".into(), vec![it1("r", id("pMat")), it1("a", id("r"))], Box::new(pw(id("a"))))))), Some(("<=", int(50))), vec![]),
+        mk("scoped-logic", bin(Op::And, E::Scp("all".into(), vec![it1("a", range(int(0), int(3), false))], Box::new(cv("pb", vec![Ix::Id("a".into())]))), bin(Op::Or, E::Scp("any".into(), vec![it1("a", id("pArr"))], Box::new(cv("pb", vec![Ix::Id("a".into())]))), E::Scp("xor".into(), vec![itn(&["a", "b"], call("enum", vec![id("pSs")]))], Box::new(cv("pb", vec![Ix::Id("b".into())]))))), None, vec![]),
+        mk("nested-destructuring", E::Scp("sum".into(), vec![itn(&["row", "ri"], call("enumerate", vec![id("pMat")])), itn(&["el", "ci"], call("enumerate", vec![id("row")])), itn(&["f1"], id("pMat"))],
+            Box::new(bin(Op::Mul, bin(Op::Add, id("el"), id("f1")), pw(bin(Op::Add, id("ri"), id("ci")))))), Some(("<=", E::Acc("pMat".into(), vec![int(0), int(1)]))), vec![]),
+        mk("string-index", bin(Op::Add, cv("pu", vec![Ix::Id("pn".into()), Ix::Lit(0)]), cv("pu", vec![Ix::Id("A".into()), Ix::Ex(bin(Op::Sub, id("pN"), int(1)))])), Some((">=", int(0))), vec![]),
+    ]
+}
+
+fn add_extras(p: &mut Prog) {
+    for (n, t) in EXTRA_CONSTS.iter() { p.consts.push((n.to_string(), E::Raw(t.to_string()))); }
+    p.decls.push(Decl { vars: vec![VarName::Cv("pw".into(), vec![Ix::Id("d".into())])], ty: DomT::Real(None), iters: vec![it1("d", range(int(0), int(3), false))] });
+    // the tuple / node / edge variables are in scope of the first quantified constraint (or of the plain first one)
+    let k = p.cons.iter().position(|c| !c.iters.is_empty()).unwrap_or(0);
+    p.cons[k].iters.push(it1("pt", call("enumerate", vec![id("pArr")])));
+    p.cons[k].iters.push(it1("pn", call("nodes", vec![id("pG")])));
+    p.cons[k].iters.push(it1("pe", call("edges", vec![id("pG")])));
+}
+
+// ------------------------------------------------------------------------------------ model correspondence
+fn pexp_sx(e: &PreExp) -> String {
+    match e {
+        PreExp::Primitive(p) => format!("(lit {})", prim_sx(p.value())),
+        PreExp::UnaryOperation(op, a) => format!("(un {} {})", sx::unop(**op), pexp_sx(a)),
+        PreExp::BinaryOperation(op, a, b) => format!("(bin {} {} {})", sx::binop(**op), pexp_sx(a), pexp_sx(b)),
+        _ => "(unsupported)".into(),
+    }
+}
+fn rand_pexp(r: &mut Rng, vals: &[Primitive], d: u32) -> PreExp {
+    let sp = InputSpan::default();
+    if d == 0 || r.chance(1, 4) { return PreExp::Primitive(Spanned::new(r.pick(vals).clone(), sp)); }
+    if r.chance(1, 4) { return PreExp::UnaryOperation(Spanned::new(*r.pick(&pre_reflect::UNOPS), sp), Box::new(rand_pexp(r, vals, d - 1))); }
+    PreExp::BinaryOperation(Spanned::new(*r.pick(&pre_reflect::BINOPS), sp), Box::new(rand_pexp(r, vals, d - 1)), Box::new(rand_pexp(r, vals, d - 1)))
+}
+fn expr_cases(r: &mut Rng, n: usize) -> Vec<Case> {
+    let vals = pre_reflect::boundary_values();
+    // mostly well-typed material: small scalars dominate so that deep expressions survive
+    let mut small: Vec<Primitive> = vec![Primitive::Integer(2), Primitive::Integer(-3), Primitive::Integer(0), Primitive::PositiveInteger(4), Primitive::PositiveInteger(0), Primitive::Number(1.5), Primitive::Number(0.0),
+        Primitive::Boolean(true), Primitive::Boolean(false), Primitive::String("a".into()), Primitive::Integer(i64::MAX), Primitive::Integer(i64::MIN), Primitive::PositiveInteger(1 << 63)];
+    let (f1, f2): (IndexMap<String, Box<dyn RoocFunction>>, IndexMap<String, Box<dyn RoocFunction>>) = (IndexMap::new(), IndexMap::new());
+    let fnc = FunctionContext::new(&f1, &f2);
+    let mut out = vec![];
+    for i in 0..n {
+        if i % 5 == 0 { small.push(r.pick(&vals).clone()); }
+        let depth = 1 + r.below(3) as u32; let e = rand_pexp(r, &small, depth);
+        let s = pexp_sx(&e);
+        let mut ctx = TypeCheckerContext::default();
+        let tc = e.type_check(&mut ctx, &fnc).is_ok();
+        let ty = e.get_type(&ctx, &fnc);
+        let mut applicable = None;
+        let ev = match catch_unwind(AssertUnwindSafe(|| e.as_primitive(&TransformerContext::default(), &fnc))) {
+            Ok(Ok(v)) => format!("(ok {})", prim_sx(&v)),
+            Ok(Err(err)) => { applicable = operator_applicable(&err); format!("(err {})", variant(&err)) }
+            Err(_) => "(panic)".into(),
+        };
+        let mut c = Case::default();
+        c.req = format!("expr {}", s);
+        c.imp = format!("(tc {} type {} eval {})", tc, kind_sx(&ty), ev);
+        c.oracle = format!("expr-sound {} {}", s, c.imp);
+        c.tags = vec!["stream:expression-core".into(), format!("expr-typecheck:{}", tc), format!("expr-eval:{}", if ev.starts_with("(ok") { "value" } else { &ev })];
+        c.nontrivial = tc;
+        c.show = format!("{} => {}", c.req, c.imp);
+        if tc && ev.starts_with("(err") {
+            c.sig = Some(if applicable == Some(true) { format!("{}:operator-applicable", &ev[5..ev.len() - 1]) } else { format!("{}:expression-core", &ev[5..ev.len() - 1]) });
+            c.impl_violation = Some(format!("accepted operator expression fails with a type-class error: {}", c.show));
+        }
+        if tc && ev == "(panic)" { c.sig = Some("panic:operator-core:unop:neg".into()); c.impl_violation = Some(format!("accepted operator expression panics: {}", c.show)); }
+        out.push(c);
+    }
+    out
+}
+
+/// JSON form of a serialized `PrimitiveKind` → protocol spelling
+fn kind_from_json(v: &serde_json::Value) -> String {
+    let t = v.get("type").and_then(|x| x.as_str()).unwrap_or("?");
+    match t {
+        "Number" => "number".into(), "Integer" => "integer".into(), "PositiveInteger" => "pint".into(), "String" => "string".into(),
+        "Graph" => "graph".into(), "GraphEdge" => "edge".into(), "GraphNode" => "node".into(), "Boolean" => "boolean".into(),
+        "Undefined" => "undefined".into(), "Any" => "any".into(),
+        "Iterable" => format!("(iter {})", kind_from_json(v.get("value").unwrap_or(&serde_json::Value::Null))),
+        "Tuple" => { let mut s = String::from("(tuple"); if let Some(a) = v.get("value").and_then(|x| x.as_array()) { for k in a { s.push(' '); s.push_str(&kind_from_json(k)); } } s.push(')'); s }
+        _ => "?".into(),
+    }
+}
+
+/// typed constants: (name, static kind, kind of the runtime value)
+const TYPED: [(&str, &str, &str); 17] = [
+    ("pF", "number", "number"), ("pN", "integer", "integer"), ("pL", "pint", "pint"), ("pS", "string", "string"), ("pB", "boolean", "boolean"),
+    ("pArr", "(iter integer)", "(iter integer)"), ("pMix", "(iter any)", "(iter any)"), ("pMat", "(iter (iter integer))", "(iter (iter integer))"), ("pG", "graph", "graph"),
+    ("pSs", "(iter string)", "(iter string)"), ("pEn", "(iter (tuple integer pint))", "(iter (tuple integer number))"), ("pNs", "(iter node)", "(iter node)"), ("pEs", "(iter edge)", "(iter edge)"),
+    ("pT", "(tuple integer pint)", "(tuple integer number)"), ("pNd", "node", "node"), ("pEd", "edge", "edge"), ("pAny", "any", "integer"),
+];
+const TYPED_DECLS: &str = "    let pF = 2.0\n    let pN = 3\n    let pArr = [4, 5, 6]\n    let pL = len(pArr)\n    let pS = \"B\"\n    let pB = true\n    let pMix = [1, \"a\"]\n    let pMat = [[1, 2], [3]]\n    let pG = Graph { A -> [B: 2, C], B -> [C], C }\n    let pSs = [\"a\", \"b\"]\n    let pEn = enumerate(pArr)\n    let pNs = nodes(pG)\n    let pEs = edges(pG)\n    let pT = pEn[0]\n    let pNd = pNs[0]\n    let pEd = pEs[0]\n    let pAny = pMix[0]\n";
+
+/// builtin signatures by reflection through the real front end: the call sits in a `let`, its arguments are
+/// constants of every static kind; observed: the type checker's verdict, the static kind it assigns to the
+/// call (token type map) and the variant with which `transform` fails
+fn builtin_cases(thorough: bool) -> Vec<Case> {
+    let names = ["len", "enumerate", "enum", "zip", "range", "union", "intersection", "difference", "nodes", "V", "edges", "E", "neigh_edges", "N", "neigh_edges_of", "N_of", "nosuchfn"];
+    let mut out = vec![];
+    for name in names {
+        let max_arity = if name == "range" { 3 } else if thorough && name == "zip" { 3 } else { 2 };
+        let mut tuples: Vec<Vec<usize>> = vec![vec![]];
+        let mut frontier: Vec<Vec<usize>> = vec![vec![]];
+        for _ in 0..max_arity {
+            let mut next = vec![];
+            for t in &frontier { for k in 0..TYPED.len() { let mut u = t.clone(); u.push(k); next.push(u); } }
+            tuples.extend(next.iter().cloned());
+            frontier = next;
+        }
+        for t in tuples {
+            let args = t.iter().map(|k| TYPED[*k].0).collect::<Vec<_>>().join(", ");
+            let src = format!("min 1\ns.t.\n    1 >= 0\nwhere\n{}    let probe = {}({})\n", TYPED_DECLS, name, args);
+            let r = catch_unwind(AssertUnwindSafe(|| {
+                let pre = RoocParser::new(src.clone()).parse().map_err(|e| e.to_string_from_source(&src))?;
+                let tc = match pre.create_type_checker(&vec![], &IndexMap::new()) { Ok(()) => "(ok)".to_string(), Err(e) => format!("(err {})", variant(&e)) };
+                let map = pre.create_token_type_map(&vec![], &IndexMap::new());
+                let mut ret = "?".to_string();
+                for (_, tok) in map.iter() {
+                    let v = serde_json::to_value(tok).unwrap_or(serde_json::Value::Null);
+                    if v.get("identifier").and_then(|x| x.as_str()) == Some("probe") { ret = kind_from_json(v.get("value").unwrap_or(&serde_json::Value::Null)); }
+                }
+                let call = match pre.transform(vec![], &IndexMap::new()) {
+                    Ok(_) => "none".to_string(),
+                    Err(e) => { let v = variant(&e); if TYPE_CLASS.contains(&v.as_str()) && !numeric_conversion(&e) { v } else { "none".into() } }
+                };
+                Ok::<_, String>((tc, ret, call))
+            }));
+            let (tc, ret, call) = match r { Ok(Ok(x)) => x, Ok(Err(e)) => ("(parse-error)".into(), e, "none".into()), Err(_) => ("(panic)".into(), "?".into(), "panic".into()) };
+            let st = t.iter().map(|k| TYPED[*k].1).collect::<Vec<_>>().join(" ");
+            let dy = t.iter().map(|k| TYPED[*k].2).collect::<Vec<_>>().join(" ");
+            let mut c = Case::default();
+            c.req = format!("fn {} ({}) ({})", name, st, dy);
+            c.imp = format!("(check {} ret {} callerr {})", tc, ret, call);
+            c.oracle = format!("fn-sound {} {}", name, c.imp);
+            c.tags = vec!["stream:builtin-signatures".into(), format!("fn:{}", name), format!("fn-typecheck:{}", if tc == "(ok)" { "accepts" } else { "rejects" }), format!("fn-call:{}", call)];
+            c.nontrivial = tc == "(ok)";
+            c.show = format!("let probe = {}({})  [{}] => {}", name, args, st, c.imp);
+            if tc == "(ok)" && call != "none" {
+                c.sig = Some(if ["union", "intersection", "difference"].contains(&name) { format!("{}:set-function-of-non-iterable", call) } else { format!("{}:builtin:{}", call, name) });
+                c.impl_violation = Some(format!("type checker accepts `{}({})` with argument kinds [{}], the call fails with {}", name, args, st, call));
+            }
+            out.push(c);
+        }
+    }
+    out
+}
+
+/// corpus file name → (perturbation class, position) so that a replayed seed gets the signature of its root cause
+fn corpus_class(name: &str) -> (&'static str, &'static str) {
+    if name.contains("union") || name.contains("setfn") { ("setfn-scalar", "const") }
+    else if name.contains("block") || name.contains("aggregate") { ("block-as-value", "const") }
+    else if name.contains("domain-var") { ("domain-var", "const") }
+    else if name.contains("objective") { ("string", "objective") }
+    else if name.contains("any") { ("mixed-array", "const") }
+    else { ("corpus", "corpus") }
+}
+
+pub fn generate(seed: u64, n: usize, thorough: bool, corpus: Option<&str>) -> Vec<Case> {
+    let mut r = Rng::new(crate::pre_gen::spread_seed(seed));
+    let mut cases = vec![];
+    let pool = pool();
+    if let Some(dir) = corpus {
+        if let Ok(rd) = std::fs::read_dir(dir) {
+            let mut files: Vec<_> = rd.filter_map(|e| e.ok()).map(|e| e.path()).filter(|p| p.extension().map(|x| x == "rooc").unwrap_or(false)).collect();
+            files.sort();
+            for f in files {
+                if let Ok(s) = std::fs::read_to_string(&f) {
+                    let name = f.file_name().unwrap().to_string_lossy().to_string();
+                    let (pert, pos) = corpus_class(&name);
+                    cases.push(judge(&s, vec!["stream:corpus".into(), format!("corpus:{}", name)], pert, pos));
+                }
+            }
+        }
+    }
+    // ---- templates: every position × every perturbation (exhaustive in the thorough tier, sampled otherwise)
+    for (name, p) in templates() {
+        let src = print_prog(&p);
+        let base = judge(&src, vec!["stream:templates".into(), format!("template:{}", name), "unperturbed".into()], "none", "none");
+        if base.imp != "(tc ok transform ok)" {
+            let mut c = base.clone();
+            c.impl_violation = Some(format!("template {} is not a valid program: {}", name, c.imp));
+            c.sig = Some("generator-invalid-template".into());
+            cases.push(c);
+            continue;
+        }
+        cases.push(base);
+        let npos = positions(&p).len();
+        for k in 0..npos {
+            for (class, text, _) in &pool {
+                if !thorough && !r.chance(1, 4) { continue; }
+                if let Some((q, pos)) = replace_at(&p, k, &E::Raw(text.to_string())) {
+                    cases.push(judge(&print_prog(&q), vec!["stream:templates".into(), format!("template:{}", name)], class, &pos));
+                }
+            }
+        }
+    }
+    // ---- grammar-generated programs, perturbed at random positions
+    let per = if thorough { 60 } else { 12 };
+    for i in 0..n {
+        let mut rr = r.fork();
+        let mut g = ProgGen::new(&mut rr, GenCfg { graphs: i % 2 == 0, logic: i % 3 == 0, errors: false });
+        let mut p = g.program();
+        add_extras(&mut p);
+        let src = print_prog(&p);
+        let base = judge(&src, vec!["stream:grammar".into(), "unperturbed".into()], "none", "none");
+        let valid = base.imp == "(tc ok transform ok)";
+        cases.push(base);
+        if !valid { continue; }
+        let npos = positions(&p).len();
+        for _ in 0..per {
+            let k = r.below(npos);
+            let (class, text, _) = r.pick(&pool).clone();
+            if let Some((q, pos)) = replace_at(&p, k, &E::Raw(text.to_string())) {
+                cases.push(judge(&print_prog(&q), vec!["stream:grammar".into()], class, &pos));
+            }
+        }
+    }
+    // ---- correspondence with the Lean model
+    for mut c in pre_reflect::static_cases() { c.tags.push("stream:operator-tables".into()); cases.push(c); }
+    cases.extend(builtin_cases(thorough));
+    cases.extend(expr_cases(&mut r, if thorough { 20000 } else { 2000 }));
+    let _ = (BinOp::Add, UnOp::Neg);
+    cases
+}
